@@ -672,6 +672,23 @@ LOOSE_AXIS_TOL = {"compress_all", "contract_boundary", "contract_hotrg", "gauge_
                   "contract_boundary_from_ymax", "contract_ctmrg", "contract_mps_sweep", "coarse_grain_hotrg"}
 
 
+def ill_formed(v):
+    """a label that has different sizes on the tensors carrying it, or a tensor whose array rank differs from its number
+    of labels, anywhere in a (nested) result: None if well formed, else a short description"""
+    import quimb.tensor as qtn
+
+    for o in tn_like(v):
+        sizes = {}
+        for t in ([o] if isinstance(o, qtn.Tensor) else list(o.tensors)):
+            shp = tuple(np.shape(t.data))
+            if len(shp) != len(t.inds):
+                return f"tensor with labels {t.inds} holds an array of shape {shp}"
+            for ix, d in zip(t.inds, shp):
+                if sizes.setdefault(ix, d) != d:
+                    return f"label {ix!r} has sizes {sizes[ix]} and {d} on different tensors"
+    return None
+
+
 def is_number(v):
     return isinstance(v, (int, float, complex, np.number)) and not isinstance(v, bool) or (isinstance(v, np.ndarray) and v.ndim == 0)
 
@@ -727,6 +744,10 @@ def one_case(ctx, owner, name, kind, x, args, kw, rng):
     if [fingerprint(a) for a in arg_objs] != fp_args:
         ctx.violation(f"mutates_argument:{owner}.{name}", f"plain spelling {owner}.{name} changed a tensor / network passed as an argument", desc)
     aliased = bool(tensor_ids(r_plain) & (tensor_ids(x) | tensor_ids(arg_objs)))
+    bad = ill_formed(r_plain)
+    if bad is not None:
+        ctx.violation(f"ill_formed_result:{owner}.{name}", f"{owner}.{name} returns an inconsistent object: {bad}", desc)
+        return
     # in-place spelling on a copy
     y = x.copy()
     fp_before = fingerprint(y)
@@ -748,6 +769,10 @@ def one_case(ctx, owner, name, kind, x, args, kw, rng):
         ctx.violation(f"aliases:{owner}.{name}", f"plain spelling {owner}.{name} returns tensor objects shared with its receiver/arguments "
                       "(a later in-place edit of the result changes the input)", desc)
     res_in = y if (r_in is None or r_in is y) else r_in
+    bad = ill_formed(res_in)
+    if bad is not None:
+        ctx.violation(f"ill_formed_result:{owner}.{name}_", f"{owner}.{name}_ leaves an inconsistent object: {bad}", desc)
+        return
     labels = name not in FRESH_LABEL_METHODS
     import quimb.tensor as qtn
 
@@ -781,6 +806,11 @@ def one_case(ctx, owner, name, kind, x, args, kw, rng):
         args2, kw2 = _copy.deepcopy((args0, kw0))
         reseed()
         r2 = getattr(x2, name)(*args2, **kw2)
+        bad2 = ill_formed(r2)
+        if bad2 is not None:
+            ctx.violation(f"axis_order:{owner}.{name}", f"{owner}.{name} returns an inconsistent object when tensors store their axes in "
+                          f"another order: {bad2}", desc)
+            return
         tol = 1e-6 if name in LOOSE_AXIS_TOL else 1e-8
         if is_number(r_plain) and is_number(r2):
             if not numbers_agree(complex(r_plain), complex(r2), tol):
@@ -791,7 +821,10 @@ def one_case(ctx, owner, name, kind, x, args, kw, rng):
                 ctx.violation(f"axis_order:{owner}.{name}", f"{owner}.{name} gives a different labelled result when tensors store their axes in another order", desc)
             ctx.bump("axis_twin_checked")
     except Exception as e:
+        # the plain call succeeded on x: the same call on the same labelled content stored in another axis order must too
         ctx.bump("axis_twin_rejected")
+        ctx.violation(f"axis_order_raises:{owner}.{name}", f"{owner}.{name} raised {type(e).__name__} on a twin of its receiver whose tensors "
+                      "store their axes in another order (the call succeeds on the receiver itself)", {**desc, "error": str(e)[:150]})
     if len(ctx.samples) < 4:
         ctx.sample(desc)
 
@@ -1030,6 +1063,8 @@ def transpose_like_correspondence(ctx):
         try:
             r = t.transpose_like_(other) if inplace else t.transpose_like(other)
             r = t if r is None else r
+            if not inplace and (r is t or t.inds != src_inds or not np.array_equal(np.asarray(t.data), arr)):
+                ctx.violation("mutates:Tensor.transpose_like", "plain Tensor.transpose_like changed (or returned) its receiver", info[cid])
         except ValueError:
             cases.append((cid, f"match like_order {SRC} {DST} with None => true | Some _ => false end"))
             continue
@@ -1307,8 +1342,16 @@ def _net_kinds(rng):
         "PEPS3D": lambda s: qtn.PEPS3D.rand(1, 2, 2, 2, seed=s),
         "GENV": lambda s: qtn.TN_from_edges_rand(edges, D=2, phys_dim=2, seed=s),
         "GENO": lambda s: qtn.TN_from_edges_rand(edges, D=2, phys_dim=2, seed=s, site_ind_id=("k{}", "b{}")),
+        # no bonds at all (empty relabelling map). A single site is in the documented domain; a multi-site product state
+        # whose dummy bonds were squeezed away is not ("sites connected by a single index": without bonds the function
+        # returns the product of the site-wise sums, not the sum) - for it only the non-mutation / aliasing / ownership
+        # claims are checked, not the value
+        "MPS_SINGLE_SITE": lambda s: qtn.MPS_rand_state(1, 3, seed=s, dtype="complex128"),
         "MPS_PRODUCT_NO_BONDS": product_mps,
     }
+
+
+VALUE_OUT_OF_DOMAIN = {"MPS_PRODUCT_NO_BONDS"}
 
 
 RELATIONS = ["independent", "copy_shared_bond_names", "derived_shared_bond_names", "some_bond_names_shared", "same_object",
@@ -1390,7 +1433,7 @@ def network_sum(ctx):
 
     rng = np.random.default_rng(ctx.seed + 31)
     kinds = _net_kinds(rng)
-    METHOD = {"MPS": "add_MPS", "MPS_PRODUCT_NO_BONDS": "add_MPS", "MPO": "add_MPO", "PEPS": "add_PEPS", "PEPO": "add_PEPO"}
+    METHOD = {"MPS": "add_MPS", "MPS_PRODUCT_NO_BONDS": "add_MPS", "MPS_SINGLE_SITE": "add_MPS", "MPO": "add_MPO", "PEPS": "add_PEPS", "PEPO": "add_PEPO"}
     cases, info, cid = [], {}, 0
     header = tm.HEADER + "From QV Require Import C03.Model.\n"
     reps = ctx.n(1, 6)
@@ -1465,9 +1508,12 @@ def network_sum(ctx):
                             ok = lr == la and dr.shape == ref.shape and np.allclose(dr, ref, atol=1e-9 * max(1.0, float(np.abs(ref).max())), rtol=0)
                         except Exception:
                             ok = False
+                        if kind in VALUE_OUT_OF_DOMAIN:
+                            ctx.bump("netsum_value_not_claimed_no_bonds")
+                            ok = True
                         if not ok:
                             ctx.violation(f"netsum:value:{key_tail}", "dense(result) differs from dense(a) +- dense(b) (numpy reference)", desc)
-                        if not inplace:
+                        if not inplace and kind not in VALUE_OUT_OF_DOMAIN:
                             try:
                                 l2, d2 = _dense_sorted(call(a, b))
                                 ok2 = l2 == la and np.allclose(d2, ref, atol=1e-9 * max(1.0, float(np.abs(ref).max())), rtol=0)
@@ -1513,12 +1559,16 @@ def network_operators(ctx):
             y = permute_axes(x.copy(), rng).conj() if rng.integers(2) else x.conj()
             lx, dx = _dense_sorted(x)
             c = complex(int(rng.integers(2, 5)), int(rng.integers(-2, 3)))
+            # `|` views its operands and, by design, renames clashing inner labels of the viewed tensors in place
+            # (add_tensor_network: reindex(inplace=virtual)): it gets an operand without clashing labels
+            yv = y.reindex({ix: f"_v{j}" for j, ix in enumerate(sorted(y.inner_inds()))})
             OPS = {"mul": (lambda: x * c, lambda: dx * c), "rmul": (lambda: c * x, lambda: dx * c), "div": (lambda: x / c, lambda: dx / c),
-                   "neg": (lambda: -x, lambda: -dx), "and": (lambda: (x & y), None), "or": (lambda: (x | y), None),
-                   "matmul": (lambda: x @ y, lambda: np.vdot(dx, dx) if False else None)}
+                   "neg": (lambda: -x, lambda: -dx), "and": (lambda: (x & y), None), "or": (lambda: (x | yv), None),
+                   "matmul": (lambda: x @ y, None)}
             for nm, (f, ref) in OPS.items():
-                sx, sy = x.copy(), y.copy()
-                fx, fy, fsx, fsy = fingerprint(x), fingerprint(y), fingerprint(sx), fingerprint(sy)
+                y_ = yv if nm == "or" else y
+                sx, sy = x.copy(), y_.copy()
+                fx, fy, fsx, fsy = fingerprint(x), fingerprint(y_), fingerprint(sx), fingerprint(sy)
                 desc = {"operator": nm, "class": kind, "scalar": repr(c)}
                 ctx.count(("netop", nm, kind, it), True)
                 try:
@@ -1526,7 +1576,7 @@ def network_operators(ctx):
                 except Exception as e:
                     ctx.bump("netop_rejected")
                     continue
-                if (fingerprint(x), fingerprint(y), fingerprint(sx), fingerprint(sy)) != (fx, fy, fsx, fsy):
+                if (fingerprint(x), fingerprint(y_), fingerprint(sx), fingerprint(sy)) != (fx, fy, fsx, fsy):
                     ctx.violation(f"netop:mutates_operand:{nm}", f"TensorNetwork operator {nm} changed an operand", desc)
                 if nm != "or" and isinstance(r, qtn.TensorNetwork) and tensor_ids(r) & (tensor_ids(x) | tensor_ids(y)):
                     ctx.violation(f"netop:aliases:{nm}", f"the result of TensorNetwork operator {nm} holds tensor objects of an operand", desc)
